@@ -8,9 +8,12 @@ import (
 	"encoding/binary"
 	"errors"
 
+	"github.com/attestantio/go-eth2-client/api"
 	"github.com/attestantio/go-eth2-client/spec/phase0"
 	"github.com/attestantio/vouch/internal/vnd"
 	"github.com/attestantio/vouch/internal/vstub"
+	"github.com/attestantio/vouch/services/attestationaggregator"
+	"github.com/prysmaticlabs/go-bitfield"
 	e2wtypes "github.com/wealdtech/go-eth2-wallet-types/v2"
 )
 
@@ -68,4 +71,122 @@ func VerifC14_IsAggregator() {
 		vnd.Assert(aggs[i] == want, "C14.isaggregator.spec-selection-rule")
 	}
 	vnd.Cover("C14.isaggregator.checked")
+}
+
+type c14AggProvider struct {
+	fail  bool
+	agg   *phase0.Attestation
+	asked []*api.AggregateAttestationOpts
+}
+
+func (p *c14AggProvider) AggregateAttestation(_ context.Context, opts *api.AggregateAttestationOpts) (*api.Response[*phase0.Attestation], error) {
+	p.asked = append(p.asked, opts)
+	if p.fail {
+		return nil, errors.New("mock aggregate failure")
+	}
+	return &api.Response[*phase0.Attestation]{Data: p.agg, Metadata: map[string]any{}}, nil
+}
+
+type c14Accounts struct {
+	mode  int // 0 account found, 1 none, 2 error
+	asked []phase0.Epoch
+}
+
+func (a *c14Accounts) ValidatingAccountsForEpoch(_ context.Context, _ phase0.Epoch) (map[phase0.ValidatorIndex]e2wtypes.Account, error) {
+	return nil, errors.New("not used")
+}
+func (a *c14Accounts) ValidatingAccountsForEpochByIndex(_ context.Context, epoch phase0.Epoch, indices []phase0.ValidatorIndex) (map[phase0.ValidatorIndex]e2wtypes.Account, error) {
+	a.asked = append(a.asked, epoch)
+	switch a.mode {
+	case 1:
+		return map[phase0.ValidatorIndex]e2wtypes.Account{}, nil
+	case 2:
+		return nil, errors.New("mock accounts failure")
+	}
+	res := map[phase0.ValidatorIndex]e2wtypes.Account{}
+	for _, i := range indices {
+		res[i] = &vstub.Account{VIndex: uint64(i), Nm: "acc"}
+	}
+	return res, nil
+}
+func (a *c14Accounts) SyncCommitteeAccountsForEpoch(_ context.Context, _ phase0.Epoch) (map[phase0.ValidatorIndex]e2wtypes.Account, error) {
+	return nil, errors.New("not used")
+}
+func (a *c14Accounts) SyncCommitteeAccountsForEpochByIndex(_ context.Context, _ phase0.Epoch, _ []phase0.ValidatorIndex) (map[phase0.ValidatorIndex]e2wtypes.Account, error) {
+	return nil, errors.New("not used")
+}
+
+type c14APSigner struct {
+	fail  bool
+	calls int
+	acc   e2wtypes.Account
+	slot  phase0.Slot
+	root  phase0.Root
+}
+
+func (g *c14APSigner) SignAggregateAndProof(_ context.Context, account e2wtypes.Account, slot phase0.Slot, root phase0.Root) (phase0.BLSSignature, error) {
+	g.calls++
+	g.acc, g.slot, g.root = account, slot, root
+	if g.fail {
+		return phase0.BLSSignature{}, errors.New("mock sign failure")
+	}
+	var sig phase0.BLSSignature
+	sig[0] = byte(account.(*vstub.Account).VIndex)
+	copy(sig[1:5], root[0:4])
+	return sig, nil
+}
+
+type c14AggSubmitter struct {
+	fail  bool
+	calls [][]*phase0.SignedAggregateAndProof
+}
+
+func (s *c14AggSubmitter) SubmitAggregateAttestations(_ context.Context, aggs []*phase0.SignedAggregateAndProof) error {
+	s.calls = append(s.calls, aggs)
+	if s.fail {
+		return errors.New("mock submit failure")
+	}
+	return nil
+}
+
+// VerifC14_AggregateJob: the aggregation job of a committee: the aggregate is
+// asked for the duty's slot and attestation data root; what is submitted is one
+// aggregate-and-proof naming the duty's validator, carrying the aggregate
+// obtained and the duty's slot signature as selection proof, signed by that
+// validator's account for the duty's slot over the root of that very message;
+// nothing is submitted when a step fails.
+func VerifC14_AggregateJob() {
+	ct := vstub.NewChainTime(0)
+	slot := phase0.Slot(vnd.U64("slot"))
+	vnd.Assume(uint64(slot) < 1<<40)
+	bits := bitfield.NewBitlist(8)
+	bits.SetBitAt(3, true)
+	agg := &phase0.Attestation{AggregationBits: bits, Data: &phase0.AttestationData{Slot: slot, Index: 2, BeaconBlockRoot: phase0.Root(vnd.Root("head")), Source: &phase0.Checkpoint{}, Target: &phase0.Checkpoint{}}}
+	prov := &c14AggProvider{fail: vnd.Bool("aggregate.fail"), agg: agg}
+	accs := &c14Accounts{mode: vnd.Choose("accounts", 3)}
+	sgn := &c14APSigner{fail: vnd.Bool("sign.fail")}
+	sub := &c14AggSubmitter{fail: vnd.Bool("submit.fail")}
+	s := &Service{slotsPerEpoch: ct.SPE, validatingAccountsProvider: accs, aggregateAttestationProvider: prov, aggregateAttestationsSubmitter: sub, aggregateAndProofSigner: sgn, chainTime: ct}
+	duty := &attestationaggregator.Duty{Slot: slot, AttestationDataRoot: phase0.Root(vnd.Root("data-root")), ValidatorIndex: phase0.ValidatorIndex(vnd.U64("validator")), SlotSignature: phase0.BLSSignature(vnd.Sig("slot-signature"))}
+	s.Aggregate(context.Background(), duty)
+	vnd.Assert(len(prov.asked) == 1 && prov.asked[0].Slot == slot && prov.asked[0].AttestationDataRoot == duty.AttestationDataRoot, "C14.aggjob.aggregate-asked-for-the-dutys-slot-and-data")
+	if prov.fail || accs.mode != 0 || sgn.fail {
+		vnd.Cover("C14.aggjob.step-failed")
+		vnd.Assert(len(sub.calls) == 0, "C14.aggjob.nothing-submitted-when-a-step-fails")
+		return
+	}
+	vnd.Cover("C14.aggjob.submitted")
+	vnd.Assert(uint64(accs.asked[0]) == uint64(slot)/ct.SPE, "C14.aggjob.account-of-the-slots-epoch")
+	vnd.Assert(len(sub.calls) == 1 && len(sub.calls[0]) == 1, "C14.aggjob.one-aggregate-and-proof-submitted")
+	if len(sub.calls) != 1 || len(sub.calls[0]) != 1 {
+		return
+	}
+	m := sub.calls[0][0].Message
+	vnd.Assert(m.AggregatorIndex == duty.ValidatorIndex && m.Aggregate == agg && m.SelectionProof == duty.SlotSignature, "C14.aggjob.names-the-aggregator-carries-the-aggregate-and-its-selection-proof")
+	root, _ := m.HashTreeRoot()
+	vnd.Assert(sgn.calls == 1 && sgn.slot == slot && sgn.root == phase0.Root(root) && sgn.acc.(*vstub.Account).VIndex == uint64(duty.ValidatorIndex), "C14.aggjob.signed-by-that-validator-for-the-slot-over-that-message")
+	var want phase0.BLSSignature
+	want[0] = byte(duty.ValidatorIndex)
+	copy(want[1:5], root[0:4])
+	vnd.Assert(sub.calls[0][0].Signature == want, "C14.aggjob.signature-submitted-is-the-one-obtained")
 }
